@@ -245,7 +245,14 @@ def _reread_check(c, rng, model, new, recs, K, rname, steps, sname):
     try:
         same(new)
     except denote.Mismatch as mm:
-        c.violate(None, f"{rname} after {steps} on {sname}: the code generated for the result, read back, is another model "
+        key = None
+        if rname == "convert_generic_and_back":
+            # signature of the listed conversion finding in the written code: the scale parameter moved to another
+            # compartment number (S3 = VC becomes S4 = VC for a model with two transit compartments)
+            sc = lambda m: sorted(_re.findall(r"^\s*(S\d+)\s*=", m.code, _re.M))  # noqa: E731
+            if sc(model) != sc(new) and mm.what.startswith("F:"):
+                key = CONVERT_KEY
+        c.violate(key, f"{rname} after {steps} on {sname}: the code generated for the result, read back, is another model "
                         f"(the original's code reads back as the original): {mm.what}", {"code": new.code.splitlines()[:80]})
     except Exception as e:
         c.violate(None, f"{rname} after {steps} on {sname}: the code generated for the result cannot be read back "
